@@ -14,8 +14,8 @@ import (
 )
 
 var profile = histeng.Profile{MaxTargets: 6, Edits: []string{"edit-content", "bump-nonce", "toggle-nocache", "toggle-nocache"}, Taint: true, NoCacheBuild: true, NoCacheTags: true,
-	ExtSteps: []string{"set-fail", "clear-switches"}, Minimal: true,
-	DirOutputs: true, MinSteps: 4, MaxSteps: 12, SubsetBuilds: true, Clean: true}
+	ExtSteps: []string{"set-fail", "set-softfail", "clear-switches"}, Minimal: true,
+	DirOutputs: true, MinSteps: 4, MaxSteps: 12, SubsetBuilds: true, Clean: true, Groups: true}
 
 func run(h histeng.History) (pbt.Result, error) {
 	obs, err := histeng.RunHistory(h, os.Getenv("GROG_BIN"), histeng.Oracles{})
